@@ -589,7 +589,10 @@ def explore(harness, *, tier='quick', timeout_ms=20000, max_paths=20000, budget_
                     flat = {}
                     _flatten(rctx.observed, flat)
                     mism = []
-                    if rctx.violations and not interior:
+                    if rctx.violations and rctx.missing:
+                        mism.append(f"real run left the path (it asked for generator draws the witness does not define: {rctx.missing[:3]}): "
+                                    f"violations={[l for l, _ in rctx.violations]} not reported, the improvised draws are not a run of the real generator")
+                    elif rctx.violations and not interior:
                         mism.append(f"real run on a boundary witness: violations={[l for l, _ in rctx.violations]} (not reported: "
                                     f"the path is only satisfiable on a decision boundary, where float and exact comparisons may differ)")
                     elif rctx.violations:
@@ -649,4 +652,7 @@ def confirm_violation(harness, label, model, timeout_ms, tier):
     info = dict(status=rstatus, labels=labels, missing=rctx.missing[:5])
     if rerr:
         info['err'] = rerr[-600:]
+    if rctx.missing and label not in labels:
+        # the real run left the predicted path and improvised generator draws: whatever else it violated is not evidence
+        info['labels'] = []
     return (label in labels), info
